@@ -1,0 +1,182 @@
+//go:build verif
+// +build verif
+
+// Contracts for package index (build tag verif only; no executable code).
+package index
+
+import (
+	"github.com/marekgalovic/anndb/index/space"
+	"github.com/marekgalovic/anndb/math"
+	"github.com/marekgalovic/anndb/utils"
+	uuid "github.com/satori/go.uuid"
+)
+
+var _ uuid.UUID
+var _ space.Space
+var _ math.Vector
+var _ utils.PriorityQueue
+
+// ---------------------------------------------------------------------------------------------
+// Abstract view of an index: the finite map id -> vertex spread over 16 shards.
+
+//@ spec shardIdx(id uuid.UUID) uint64 = uuidmod(id, 16)
+//@ spec shard(ix *Hnsw, id uuid.UUID) map[uuid.UUID]*hnswVertex = ix.vertices[shardIdx(id)]
+//@ spec live(ix *Hnsw, id uuid.UUID) bool = has(shard(ix, id), id)
+//@ spec vertexOf(ix *Hnsw, id uuid.UUID) *hnswVertex = shard(ix, id)[id]
+
+// shards exist, are pairwise different maps, and every stored vertex sits in the shard of its own id under its own id
+//@ spec wfShards(ix *Hnsw) bool = (forall s int :: 0 <= s && s < 16 ==> ix.vertices[s] != nil) && (forall s int, t int :: 0 <= s && s < t && t < 16 ==> ix.vertices[s] != ix.vertices[t])
+//@ spec wfStored(ix *Hnsw) bool = forall s int, id uuid.UUID :: 0 <= s && s < 16 && has(ix.vertices[s], id) ==> s == shardIdx(id) && ix.vertices[s][id] != nil && ix.vertices[s][id].id == id && ix.vertices[s][id].deleted == 0 && ix.vertices[s][id].level >= 0 && ix.vertices[s][id].level < 2147483648
+
+// bytes accounted for one item: 16 (id) + 4 per vector component + metadata key/value bytes
+//@ ufunc metaBytes(Metadata) uint64
+//@ spec bytesOf(v *hnswVertex) uint64 = 16 + 4 * len(v.vector) + metaBytes(v.metadata)
+
+//@ func (index.Metadata).bytesSize
+//@ props C02
+//@ pure
+//@ trust nooverflow: the sum of key and value lengths of one item stays below 2^63 (memory bound)
+//@ trust sum-semantics: the result is treated as an uninterpreted function metaBytes of the map (determinism, not the sum itself, is what the counters need)
+//@ assume
+//@ ensures [fn] ret == metaBytes(this)
+//@ ensures [bound] ret < 9223372036854775808
+
+//@ func (*index.hnswVertex).bytesSize
+//@ props C02
+//@ pure
+//@ ensures [bytes] ret == bytesOf(this)
+//@ ensures [bound] ret < 9300000000000000000 && ret >= 16
+
+//@ func (*index.Hnsw).getVerticesShard
+//@ props C02 C10 C01
+//@ pure
+//@ requires [shards] wfShards(this)
+//@ ensures [shard] ret0 == shard(this, id) && ret0 != nil && shardIdx(id) < 16
+
+//@ func (*index.Hnsw).storeVertex
+//@ props C02 C01
+//@ requires [shards] wfShards(this)
+//@ requires [vertex] vertex != nil && vertex.deleted == 0 && vertex.level >= 0 && vertex.level < 2147483648
+//@ ensures [stored-inv] old(wfStored(this)) ==> wfStored(this)
+//@ ensures [exists] old(live(this, vertex.id)) ==> err == ItemAlreadyExistsError && this.len == old(this.len) && this.bytesSize == old(this.bytesSize) && vertexOf(this, vertex.id) == old(vertexOf(this, vertex.id)) && live(this, vertex.id)
+//@ ensures [stored] !old(live(this, vertex.id)) ==> isnil(err) && live(this, vertex.id) && vertexOf(this, vertex.id) == vertex
+//@ ensures [counters] !old(live(this, vertex.id)) ==> this.len == (old(this.len) + 1) % 18446744073709551616 && this.bytesSize == (old(this.bytesSize) + bytesOf(vertex)) % 18446744073709551616
+//@ ensures [others] forall j uuid.UUID :: j != vertex.id ==> live(this, j) == old(live(this, j)) && vertexOf(this, j) == old(vertexOf(this, j))
+//@ ensures [shards] wfShards(this)
+//@ modifies this.len, this.bytesSize, map(shard(this, vertex.id))
+
+//@ func (*index.Hnsw).removeVertex
+//@ props C02 C01
+//@ requires [shards] wfShards(this)
+//@ requires [stored] wfStored(this)
+//@ ensures [absent] !old(live(this, id)) ==> err == ItemNotFoundError && ret0 == nil && this.len == old(this.len) && this.bytesSize == old(this.bytesSize) && !live(this, id)
+//@ ensures [removed] old(live(this, id)) ==> isnil(err) && ret0 == old(vertexOf(this, id)) && ret0 != nil && !live(this, id) && ret0.deleted == 1
+//@ ensures [counters] old(live(this, id)) ==> (this.len + 1) % 18446744073709551616 == old(this.len) && (this.bytesSize + bytesOf(ret0)) % 18446744073709551616 == old(this.bytesSize)
+//@ ensures [others] forall j uuid.UUID :: j != id ==> live(this, j) == old(live(this, j)) && vertexOf(this, j) == old(vertexOf(this, j))
+//@ ensures [tombstone-only] forall v *hnswVertex :: v != ret0 ==> v.deleted == old(v.deleted)
+//@ ensures [stored-inv] wfStored(this)
+//@ ensures [shards] wfShards(this)
+//@ modifies this.len, this.bytesSize, map(shard(this, id)), type hnswVertex.deleted
+
+//@ func (*index.Hnsw).Get
+//@ props C02
+//@ pure
+//@ requires [shards] wfShards(this)
+//@ requires [stored] wfStored(this)
+//@ ensures [found] live(this, id) ==> isnil(err) && ret0 == vertexOf(this, id).vector
+//@ ensures [absent] !live(this, id) ==> err == ItemNotFoundError && isnil(ret0)
+
+//@ func (*index.Hnsw).GetVertex
+//@ props C02
+//@ pure
+//@ requires [shards] wfShards(this)
+//@ requires [stored] wfStored(this)
+//@ ensures [found] live(this, id) ==> isnil(err) && ret0 == vertexOf(this, id) && ret0 != nil && ret0.level >= 0 && ret0.level < 2147483648
+//@ ensures [absent] !live(this, id) ==> err == ItemNotFoundError && ret0 == nil
+
+//@ func (*index.Hnsw).Len
+//@ props C02
+//@ pure
+//@ ensures [len] ret == ite(this.len >= 9223372036854775808, this.len - 18446744073709551616, this.len)
+
+// ---------------------------------------------------------------------------------------------
+// Distance is the metric of the index: an uninterpreted function of (space, a, b). Nothing numeric is assumed about it.
+//@ ufunc Distance(space.Space, math.Vector, math.Vector) float32
+
+//@ func iface:index/space.Space.Distance
+//@ props C01 C02 C04
+//@ assume
+//@ pure
+//@ ensures [metric] ret == Distance(recv, arg0, arg1)
+//@ modifies nothing
+
+//@ func index.newHnswVertex
+//@ props C02 C01
+//@ safety C01 C12
+//@ requires [level] level >= 0 && level < 2147483648
+//@ ensures [fresh] ret != nil && fresh(ret)
+//@ ensures [fields] ret.id == id && ret.vector == vector && ret.metadata == metadata && ret.level == level && ret.deleted == 0
+//@ modifies nothing
+
+//@ func (*index.hnswVertex).setLevel
+//@ props C02 C01
+//@ safety C01 C12
+//@ requires [level] level >= 0 && level < 2147483648
+//@ ensures [sizes] len(this.edges) == level + 1 && len(this.edgeMutexes) == level + 1 && fresh(this.edges)
+//@ modifies this.edges, this.edgeMutexes
+
+// graph maintenance touches links only: never the shard maps, the counters, or a vertex's id/vector/metadata/level/deleted
+//@ func (*index.Hnsw).greedyClosestNeighbor
+//@ props C02 C01
+//@ safety C01 C12
+//@ modifies nothing
+
+//@ func (*index.Hnsw).searchLevel
+//@ props C02 C01
+//@ safety C01 C12
+//@ modifies cells[utils.minPriorityQueue], cells[utils.maxPriorityQueue], mem[*utils.PriorityQueueItem]
+
+//@ func (*index.Hnsw).selectNeighbors
+//@ props C02 C01
+//@ safety C01 C12
+//@ modifies cells[utils.minPriorityQueue], cells[utils.maxPriorityQueue], mem[*utils.PriorityQueueItem]
+
+//@ func (*index.Hnsw).selectNeighborsHeuristic
+//@ props C02 C01
+//@ safety C01 C12
+//@ modifies cells[utils.minPriorityQueue], cells[utils.maxPriorityQueue], mem[*utils.PriorityQueueItem]
+
+//@ func (*index.Hnsw).pruneNeighbors
+//@ props C02 C01
+//@ safety C01 C12
+//@ modifies mem[hnswEdgeSet], cells[utils.minPriorityQueue], cells[utils.maxPriorityQueue], mem[*utils.PriorityQueueItem]
+
+// C02: Insert against the finite-map specification
+//@ func (*index.Hnsw).Insert
+//@ props C02 C04
+//@ safety C01 C12
+//@ requires [shards] wfShards(this)
+//@ requires [level] vertexLevel >= 0 && vertexLevel < 2147483648
+//@ ensures [exists] old(live(this, id)) ==> err == ItemAlreadyExistsError && this.len == old(this.len) && this.bytesSize == old(this.bytesSize) && live(this, id) && vertexOf(this, id) == old(vertexOf(this, id))
+//@ ensures [stored] !old(live(this, id)) ==> isnil(err) && live(this, id) && vertexOf(this, id) != nil && fresh(vertexOf(this, id)) && vertexOf(this, id).id == id && vertexOf(this, id).vector == value && vertexOf(this, id).metadata == metadata && vertexOf(this, id).deleted == 0
+//@ ensures [counters] !old(live(this, id)) ==> this.len == (old(this.len) + 1) % 18446744073709551616 && this.bytesSize == (old(this.bytesSize) + bytesOf(vertexOf(this, id))) % 18446744073709551616
+//@ ensures [others] forall j uuid.UUID :: j != id ==> live(this, j) == old(live(this, j)) && vertexOf(this, j) == old(vertexOf(this, j))
+//@ ensures [immutable] forall v *hnswVertex :: old(allocated(v)) ==> v.id == old(v.id) && v.vector == old(v.vector) && v.metadata == old(v.metadata) && v.deleted == old(v.deleted)
+//@ ensures [shards] wfShards(this)
+//@ ensures [stored-inv] old(wfStored(this)) ==> wfStored(this)
+//@ modifies this.len, this.bytesSize, this.entrypoint, map(shard(this, id)), mem[hnswEdgeSet], maps[hnswEdgeSet], cells[utils.minPriorityQueue], cells[utils.maxPriorityQueue], mem[*utils.PriorityQueueItem]
+
+// C02: Remove against the finite-map specification
+//@ func (*index.Hnsw).Remove
+//@ props C02 C04
+//@ safety C01 C12
+//@ requires [shards] wfShards(this)
+//@ requires [stored] wfStored(this)
+//@ ensures [absent] !old(live(this, id)) ==> err == ItemNotFoundError && this.len == old(this.len) && this.bytesSize == old(this.bytesSize) && !live(this, id)
+//@ ensures [removed] old(live(this, id)) ==> isnil(err) && !live(this, id) && old(vertexOf(this, id)).deleted == 1
+//@ ensures [counters] old(live(this, id)) ==> (this.len + 1) % 18446744073709551616 == old(this.len) && (this.bytesSize + bytesOf(old(vertexOf(this, id)))) % 18446744073709551616 == old(this.bytesSize)
+//@ ensures [others] forall j uuid.UUID :: j != id ==> live(this, j) == old(live(this, j)) && vertexOf(this, j) == old(vertexOf(this, j))
+//@ ensures [immutable] forall v *hnswVertex :: old(allocated(v)) ==> v.id == old(v.id) && v.vector == old(v.vector) && v.metadata == old(v.metadata) && (v != old(vertexOf(this, id)) ==> v.deleted == old(v.deleted))
+//@ ensures [shards] wfShards(this)
+//@ ensures [stored-inv] wfStored(this)
+//@ modifies this.len, this.bytesSize, this.entrypoint, map(shard(this, id)), type hnswVertex.deleted, mem[hnswEdgeSet], maps[hnswEdgeSet], cells[utils.minPriorityQueue], cells[utils.maxPriorityQueue], mem[*utils.PriorityQueueItem]
